@@ -774,6 +774,145 @@ def check_fit(ctx, repo, out, cls, bool_typed, eval_score_key, signs):
 
 
 # ----------------------------------------------------------------------------- delegating members and the guard
+def check_property_exception_visible(ctx, repo, out, cls):
+    """Python semantics: when a *property* getter raises an AttributeError (or a subclass) and a class in the MRO defines
+    ``__getattr__``, the exception is discarded and ``__getattr__(name)`` is called instead.  The guard of a delegating property
+    raises NotFittedError, which derives from AttributeError, so no class in the tuner's MRO may define ``__getattr__``."""
+    scen = cls.name
+    exc = repo.cls("sktime/exceptions.py:NotFittedError")
+    is_attr_err = any((not hasattr(k, "methods")) and k.rsplit(".", 1)[-1].split(":")[-1] == "AttributeError" for k in repo.mro(exc))
+    props = [(k, nm) for k in repo.mro(cls) if hasattr(k, "methods") and k.module.relpath == TUNE for nm in k.properties
+             if "getter" in k.properties[nm]]
+    hit = repo.lookup_method(cls, "__getattr__")
+    for k, nm in props:
+        f = k.properties[nm]["getter"]
+        guarded = any(astq.is_self_attr(c.func, attr="check_is_fitted") for c in astq.calls(f))
+        if not guarded:
+            continue
+        tag = "%s.%s:not-fitted-error-visible" % (k.name, nm)
+        if not is_attr_err or hit is None:
+            out.add(scen, "ok", "R4", tag, "no __getattr__ in the MRO: the NotFittedError raised by the property's guard reaches the caller",
+                    ctx.loc(k.module, f))
+        else:
+            out.add(scen, "violation", "R4", tag, "%s.__getattr__ is defined and NotFittedError derives from AttributeError: Python discards the "
+                    "NotFittedError raised inside the property `%s` and calls __getattr__(%r) instead, so a tuner with refit=False does not raise "
+                    "NotFittedError from `%s`" % (hit[0].name, nm, nm, nm), ctx.loc(hit[0].module, hit[1]), "swallowed-by-__getattr__")
+
+
+def check_nested_set_params(ctx, repo):
+    """Model conformance for ``clone(forecaster).set_params(**candidate)`` on composites (pipelines, multiplexers, ensembles):
+    in ``_HeterogenousMetaEstimator._set_params`` every component replacement precedes the nested ``component__param`` update,
+    otherwise ``{"forecaster": New(), "forecaster__sp": 6}`` writes sp into the component that is then thrown away."""
+    rel = "sktime/base/_meta.py"
+    k = repo.cls(rel + ":_HeterogenousMetaEstimator")
+    f = k.methods.get("_set_params")
+    if f is None:
+        raise AnalysisError("anchor missing: _HeterogenousMetaEstimator._set_params")
+    loc = ctx.loc(k.module, f)
+
+    pnames = astq.param_names(f, skip_self=True)
+    kw = T("kwargs", f.args.kwarg.arg) if f.args.kwarg is not None else None
+    whole_val = call(attr(kw, "pop"), [P(pnames[0])]) if kw is not None and pnames else None
+
+    def classify(ev):
+        # helpers of the class are inlined, so the roles are decided by what is written, not by helper names:
+        # setattr(self, <attr>, params.pop(<attr>)) = the whole list; any other setattr(self, ...) = a component replacement
+        if ev.kind != "call" or not isinstance(ev.callee, T):
+            return ()
+        if ev.callee == fn("builtins.setattr") and ev.args[:1] == [SELF] and len(ev.args) == 3:
+            return ("whole",) if ev.args[2] == whole_val else ("replace",)
+        if ev.callee.op == "attr" and ev.callee.a[1] == "set_params" and is_call(ev.callee.a[0], fn("builtins.super")):
+            return ("nested",)
+        return ()
+
+    it = Interp(repo, classify=classify, policy=lambda kind, name, target, fr: kind == "method" and target[0].module is k.module)
+    r = it.run(k.module, f, {}, cls=k, defcls=k)
+    if not anchor_unsupported(ctx, "R3", "_HeterogenousMetaEstimator._set_params", r, k.module):
+        return
+    rep = [e for e in r.events if "replace" in e.kinds]
+    nest = [e for e in r.events if "nested" in e.kinds]
+    whole = [e for e in r.events if "whole" in e.kinds]
+    if not rep or len(nest) != 1:
+        ctx.undecided("R3", "_HeterogenousMetaEstimator._set_params:order", "expected component replacement(s) and one super().set_params(...) "
+                      "(found %d / %d)" % (len(rep), len(nest)), loc)
+        return
+    late = [e for e in rep if e.seq > nest[0].seq]
+    ctx.check(not late, "R3", "_HeterogenousMetaEstimator._set_params:replace-before-nested",
+              "components are replaced before nested component__param values are set",
+              "a component is replaced after super().set_params(**nested): for {'forecaster': New(), 'forecaster__sp': 6} the nested value is "
+              "written into the old component and lost, so candidates differing only in the nested parameter are the same forecaster", loc)
+    ctx.check(all(e.seq < min(x.seq for x in rep) and e.seq < nest[0].seq for e in whole) if whole else True, "R3",
+              "_HeterogenousMetaEstimator._set_params:whole-list-first", "the whole component list is set before single components / nested values",
+              "the whole component list is assigned after components or nested values were set (they are overwritten)", loc)
+    # the composites the tuner's quantifier names delegate their set_params to it
+    for crel, cname in (("sktime/forecasting/compose/_pipeline.py", "TransformedTargetForecaster"),
+                        ("sktime/forecasting/base/_meta.py", "_HeterogenousEnsembleForecaster")):
+        c = repo.cls(crel + ":" + cname)
+        sp = repo.lookup_method(c, "set_params")
+        good = None
+        if sp is not None and sp[0].module.relpath.startswith("sktime/"):
+            calls_ = [x for x in astq.calls(sp[1]) if astq.is_self_attr(x.func, attr="_set_params")]
+            target = repo.lookup_method(c, "_set_params")
+            good = bool(calls_) and target is not None and target[1] is f
+        ctx.check(good, "R3", "%s.set_params:delegates" % cname, "set_params goes through _HeterogenousMetaEstimator._set_params",
+                  "%s.set_params does not go through the ordered _set_params" % cname, ctx.loc(c.module, c.node))
+
+
+def check_no_frozen_ctor_state(ctx, repo):
+    """Model conformance for ``clone(forecaster).set_params(**candidate)`` == "constructed with the candidate's parameters":
+    ``set_params`` only rebinds the public parameters, so an attribute *derived* from a parameter in ``__init__`` (H4: frozen copy)
+    keeps the old value unless ``fit`` re-establishes it on every path.  Decided for every forecaster class."""
+    base = repo.cls(BASE + ":BaseForecaster")
+    for c in repo.subclasses(base):
+        hit = repo.lookup_method(c, "__init__")
+        if hit is None:
+            continue
+        it = Interp(repo, policy=lambda kind, name, target, fr: kind == "super" and name == "__init__", max_depth=8)
+        r = it.run(hit[0].module, hit[1], {}, cls=c, defcls=hit[0])
+        loc = ctx.loc(hit[0].module, hit[1])
+        tag = "%s.__init__:no-frozen-derived-state" % c.name
+        params = set()
+        for k in repo.mro(c):
+            if hasattr(k, "methods") and "__init__" in k.methods:
+                params |= set(astq.all_param_names(k.methods["__init__"]))
+        derived = {}
+        for st, _ in r.returns:
+            for a, v in st.heap.items():
+                deps = sorted({x.a[0] for x in subterms(v) if isinstance(x, T) and x.op == "param" and x.a[0] != "self"})
+                if a not in params and deps:
+                    derived[a] = (v, deps)
+        if not derived:
+            ctx.ok("R3", tag, "constructor keeps no value derived from its parameters", loc)
+            continue
+        fit = repo.lookup_method(c, "fit")
+        stale, unknown = [], []
+        for a, (v, deps) in sorted(derived.items()):
+            if fit is None:
+                unknown.append(a)
+                continue
+            fi = Interp(repo, classify=lambda ev, _a=a: ("restored",) if ev.kind == "store" and ev.attr == _a else (),
+                        policy=lambda kind, name, target, fr: kind in ("method", "super") and name.startswith("_"), max_depth=4)
+            fr_ = fi.run(fit[0].module, fit[1], {}, cls=c, defcls=fit[0])
+            rets = [e for e in fr_.events if e.kind == "return" and not e.stack]
+            if fr_.unsupported or not rets:
+                if any(e.kind == "store" and e.attr == a for e in fr_.events):
+                    unknown.append(a)
+                else:
+                    stale.append((a, v, deps))
+            elif not all("restored" in e.must for e in rets):
+                stale.append((a, v, deps))
+        if stale:
+            a, v, deps = stale[0]
+            ctx.violation("R3", tag, "__init__ stores self.%s = %s, derived from %s, and fit does not re-establish it on every path: after "
+                          "clone(f).set_params(%s=v) -- how the tuner configures every candidate and the winner -- the forecaster still uses the value "
+                          "derived from the old %s, so candidates differing in %s are the same model" % (a, show(v)[:80], ", ".join(deps), deps[0], deps[0], deps[0]),
+                          loc)
+        elif unknown:
+            ctx.undecided("R3", tag, "derived constructor state %s and fit is not interpretable" % unknown, loc)
+        else:
+            ctx.ok("R3", tag, "derived constructor state %s is re-established by fit on every path" % sorted(derived), loc)
+
+
 def check_guard_method(ctx, repo, out, cls):
     hit = repo.lookup_method(cls, "check_is_fitted")
     if hit is None:
@@ -1054,8 +1193,11 @@ def run(ctx):
         check_fit(ctx, repo, out, cls, bool_typed, eval_key, signs)
         gp = check_guard_method(ctx, repo, out, cls)
         check_delegators(ctx, repo, out, cls, callsig, gp)
+        check_property_exception_visible(ctx, repo, out, cls)
     out.flush()
+    check_nested_set_params(ctx, repo)
+    check_no_frozen_ctor_state(ctx, repo)
     ctx.floor("R1", 36)
     ctx.floor("R2", 9)
-    ctx.floor("R3", 31)
-    ctx.floor("R4", 70)
+    ctx.floor("R3", 70)
+    ctx.floor("R4", 71)
